@@ -1024,7 +1024,11 @@ func ruleTrailerEncrypt(c *core.Ctx) {
 			}
 		}
 		o.Fact("cipher selection %v", sel)
-		o.Require(sel["v>=V2_0"] == "5" && sel["v>=V1_6"] == "4" && sel["v>=V1_4"] == "2", "encryption algorithm selection by version is %v, want V2_0->5, V1_6->4, V1_4->2", sel)
+		if len(sel) == 0 {
+			o.Unrec("the selection of the encryption algorithm by version is not written as a chain of version tests (a table?): not decided")
+		} else {
+			o.Require(sel["v>=V2_0"] == "5" && sel["v>=V1_6"] == "4" && sel["v>=V1_4"] == "2", "encryption algorithm selection by version is %v, want V2_0->5, V1_6->4, V1_4->2", sel)
+		}
 	})
 }
 
